@@ -134,6 +134,10 @@ func runSeeds(seeds []Seed, repo string, onlyRules map[string]bool) []SeedResult
 				results[i].Detail = strings.Join(failing, " | ")
 			case hit:
 				results[i].Status = "detected"
+			case len(rules) < len(sd.Rules):
+				// the seed targets a rule that is not part of this run
+				results[i].Status = "skipped"
+				results[i].Detail = "no rule of this run is the one the seed targets (needs " + strings.Join(sd.Rules, ",") + ")"
 			case len(failing) > 0:
 				results[i].Status = "BLIND"
 				results[i].Detail = "fails elsewhere: " + strings.Join(failing, " | ")
